@@ -98,6 +98,16 @@ def gen_cfg(rng, real=False):
             lo = max(lo, ck)
         cfg_io = True
     cfg["io_seam"] = rng.random() < 0.7
+    u = rng.random()
+    if cfg.get("legacy_keys"):
+        pass
+    elif u < 0.05:
+        # no HDF5 output at all, requested by leaving the 'h5' key out of the output dictionary (every cadence defaults to 0)
+        cfg["out"]["h5"] = {k: 0 for k in cfg["out"]["h5"]}
+        cfg["omit_h5"] = True
+    elif u < 0.15:
+        # streams suppressed by leaving their key out instead of writing a 0
+        cfg["sparse_h5_keys"] = True
     return cfg, crashes
 
 
